@@ -836,11 +836,14 @@ impl Ty {
 
     pub fn get_max_int_size(&self) -> Option<u64> {
         match self {
-            Ty::IInt(bit_width) => match bit_width {
+            Ty::IInt(bit_width) => match *bit_width {
                 8 => Some(i8::MAX as u64),
                 16 => Some(i16::MAX as u64),
                 32 => Some(i32::MAX as u64),
-                64 | 128 => Some(i64::MAX as u64),
+                // isize (`u8::MAX`) is treated as 64 bits wide
+                64 | u8::MAX => Some(i64::MAX as u64),
+                // every literal (they are at most `u64::MAX`) fits in an i128
+                128 => Some(u64::MAX),
                 _ => None,
             },
             Ty::UInt(bit_width) => match bit_width {
